@@ -32,6 +32,8 @@ def gen_cases(tier, seed):
             items = [items[int(i)] for i in rng.choice(len(items), budget, replace=False)]
         for n, (shapes, args, form) in enumerate(items):
             vopts = catalog.vclass_options(op, args)
+            if name in ("sqrt", "log", "pow", "div", "rdiv", "exp", "mul", "sum", "max", "min") or n % 5 == 4:
+                vopts = list(vopts) + ["nonneg-withzeros"]      # purity holds on the boundary of the domain too (exact zeros: infinite derivatives, guards)
             cases.append({"kind": "tensor", "op": name, "form": form, "shapes": shapes, "args": args, "vclass": vopts[n % len(vopts)],
                           "storage": STORAGE[n % len(STORAGE)], "dtype": ["float64", "float32"][n % 2], "seed": int(rng.integers(2 ** 31))})
     for c in nncommon.build_cases(tier, seed, "c11", budget={"quick": 100, "thorough": 2500}[tier]):
@@ -178,6 +180,10 @@ def run_op_case(ns, mon, case):
             mon.drain()
             return {"counters": dict(counters, backward_rejected=1)}
         counters["backward_snapshots"] = 1
+        # the result is the operand of whatever the caller computes from it next: backward must leave its data as the forward returned it
+        with np.errstate(all="ignore"):
+            if any(o.data.shape != p.shape or o.data.dtype != p.dtype or not np.array_equal(o.data, p, equal_nan=True) for p, o in zip(first, outs)):
+                viol.append(V(f"{sig}:backward-modified-result", "backward changed the data of the op's result (an operand of every later op that uses it)", args=a))
         rebound = [i for i, (t, d0, dt0) in enumerate(held) if changed_contents(t, d0, dt0)]
         if rebound and not any(v["sig"].endswith("forward-rebound-operand-data") for v in viol):
             viol.append(V(f"{sig}:backward-rebound-operand-data", f"backward replaced the data array of operand {rebound[0]}", which=rebound, args=a))
@@ -199,7 +205,7 @@ def run_op_case(ns, mon, case):
             for l in leaves:
                 l.backward(T(np.ones(l.shape, dtype=dt)))     # backward directly on a leaf
             fl = [l for l in leaves if l.is_floating_point]
-            if fl:
+            if fl and all(l._grad is None or np.all(np.isfinite(l._grad)) for l in fl):       # (0 * inf = nan: an infinite derivative at the domain boundary would make the zero-lr step a real update)
                 opt = ns.optim.SGD(fl, lr=0.0, momentum=0.9)
                 opt.step(); big2 = (outs[0] * 1.0).sum(); big2.backward(); opt.step()
             counters["follow_up_sequences"] = 1
@@ -414,6 +420,47 @@ def run_mutators(ns, mon, case):
                               "an eval-mode forward/backward changed the running statistics"))
             bn2.track_running_stats = True
             bn2.train()
+    # inference-mode functional batch norm reads whatever statistics it is given and writes none - also when only one of the two is supplied
+    for which in ("both", "mean-only", "var-only"):
+        for mom in (0.1, 1.0):
+            xb_ = rng.standard_normal((5, 3))
+            rm_, rv_ = rng.standard_normal(3), rng.uniform(0.5, 2.0, 3)
+            tm_, tv_ = T(rm_.copy()), T(rv_.copy())
+            args_ = (T(xb_.copy(), requires_grad=True), T(np.ones(3)), T(np.zeros(3)), tm_ if which != "var-only" else None, tv_ if which != "mean-only" else None, False, mom)
+            try:
+                outs_ = []
+                for _ in range(2):
+                    with np.errstate(all="ignore"):
+                        yb_ = ns.sg.batch_norm(*args_)
+                        yb_.sum().backward()
+                    outs_.append(yb_.data.copy())
+                n += 1
+                if not (np.array_equal(tm_.data, rm_) and np.array_equal(tv_.data, rv_)):
+                    viol.append(V(f"batch_norm-inference:statistics-modified:{which}", "functional batch_norm(training=False) wrote into a running statistic it was given"))
+                if not np.array_equal(outs_[0], outs_[1], equal_nan=True):
+                    viol.append(V(f"batch_norm-inference:repeat-differs:{which}", "repeating functional batch_norm(training=False) on unchanged operands gave another result"))
+                if not np.array_equal(args_[0].data, xb_):
+                    viol.append(V(f"batch_norm-inference:modified-input:{which}", "functional batch_norm(training=False) changed its input"))
+            except Exception:
+                pass            # refusing a half-specified pair of statistics is fine
+    # the caller's upstream gradient is read, never re-shaped or written - also when its shape is not exactly the root's (the call may refuse it)
+    for rshape, sshapes in (((), [(1,), (1, 1)]), ((1,), [(), (1, 1)]), ((4, 1), [(4,), (1, 4), (4, 1, 1)]), ((1, 3), [(3,), (3, 1)]), ((2, 3), [(3, 2), (6,), (2, 3, 1), (1, 2, 3)])):
+        for ss in sshapes:
+            leaf_ = T(rng.standard_normal(rshape if rshape else ()), requires_grad=True)
+            root_ = leaf_ * 2.0
+            sarr_ = rng.standard_normal(ss)
+            keep_ = sarr_.copy()
+            seed_ = T(sarr_)
+            alias_ = T(seed_.data)                     # another tensor over the same array
+            sd0_ = seed_.data
+            try:
+                root_.backward(seed_)
+            except Exception:
+                pass
+            n += 1
+            if seed_.data is not sd0_ or tuple(seed_.shape) != tuple(ss) or tuple(sarr_.shape) != tuple(ss) or tuple(alias_.shape) != tuple(ss) or not np.array_equal(sarr_, keep_):
+                viol.append(V("backward:caller-gradient-reshaped-or-modified", f"backward(seed) with a seed of shape {list(ss)} for a root of shape {list(rshape)} changed the caller's "
+                              f"seed (now shape {list(seed_.shape)} / array shape {list(sarr_.shape)})"))
     viol += mon.drain()
     return {"keys": [("mutators", i) for i in range(2)], "evals": n, "viol": dedup(viol), "counters": {"mutator_checks": n}}
 
